@@ -8,6 +8,17 @@ from __future__ import annotations
 import itertools
 
 PROP = "C09"
+LEVEL_TEXT = ("Lean 4 theorems, for every store, batch size 0 < b <= n, PRNG oracle sequence and history length: "
+              "the store stays a permutation of the initial one; an epoch is exactly ceil(n/b) requests; its batches "
+              "concatenate to the store when b | n and cover it otherwise; a reshuffle happens exactly when all points "
+              "have been served.  The model is tied to /repo on every run by exact differential execution of every "
+              "cursor of every generator kind (all (n, b) up to 8 quick / 12 thorough), and Holds.C09 is evaluated on "
+              "the implementation's own traces.")
+LEVEL_NOTE = ("Trusted: Lean kernel + {propext, Classical.choice, Quot.sound}; the hand-written cursor model's tie to "
+              "the code is differential (sees the generated (kind, n, b) scopes); the PRNG is an oracle with the "
+              "contract 'choice(replace=False) permutes' checked on each observed reshuffle; int32 cursor arithmetic is "
+              "modelled with unbounded naturals under the hypothesis n <= 2^31 - 2.")
+TECHNIQUE = "Lean 4 proof (induction over request histories, epoch invariant) + differential correspondence with PRNG as oracle"
 THEOREMS = [
     "Jinns.Minibatch.first_request_resets",
     "Jinns.Minibatch.resets_iff_last",
